@@ -702,14 +702,12 @@ def build(program):
                 "step_size": step, "standard_step_size": program.get("std")}
         plugins = None
     else:
-        # one numeric type throughout (InteractiveContext.run_until insists that end and clock have compatible types):
-        # plain ints when everything is integral, floats otherwise
+        # the natural mixture of plain numbers: integer start, integer end when it is integral, the step as given (possibly
+        # fractional).  InteractiveContext.run_until/step accept any pair of plain numbers since /repo af5a6c59 (F-AE);
+        # before, an int clock with a float end (or the reverse, after a fractional step) raised ValueError there only.
         end = n * step + (step / 2 if program.get("end_frac") else 0)
-        if all(float(x) == int(x) for x in (step, end)):
-            time = {"start": 0, "end": int(end), "step_size": int(step), "standard_step_size": program.get("std")}
-        else:
-            time = {"start": 0.0, "end": float(end), "step_size": float(step),
-                    "standard_step_size": program.get("std")}
+        time = {"start": 0, "end": int(end) if float(end) == int(end) else float(end), "step_size": step,
+                "standard_step_size": program.get("std")}
         plugins = SIMPLE_CLOCK
     config = {"randomness": {"random_seed": program["seed"], "map_size": int(program.get("map_size", 4000)),
                              "key_columns": ["entrance_time", "age"] if program.get("crn") else []},
@@ -1044,7 +1042,7 @@ def run_program(program, env, backup_dir=None):
         sim.run(with_logging=False)
     elif driver == "i_run_for":
         span = stop - sim.current_time
-        half = span // 2 if isinstance(span, int) else span / 2      # keep the clock's own numeric type
+        half = span / 2                      # a Timedelta, or a plain number of whatever type the division gives
         sim.run_for(half, with_logging=False)
         sim.run_until(stop, with_logging=False)
     else:
